@@ -1,0 +1,96 @@
+//! Verification hooks (cargo feature `verif`, off by default).
+//!
+//! A thread-local logical clock that is advanced by `tick(site)` calls placed at the
+//! head of every solver loop. A simulator sets a budget with `reset`; when the budget
+//! is exceeded `tick` unwinds with a `Watchdog` payload, so that a loop that never
+//! returns becomes a deterministic, replayable outcome instead of a hang. The per-site
+//! counters double as reach probes. Nothing here is compiled without the feature.
+
+use std::cell::Cell;
+
+/// Number of distinct tick sites.
+pub const N_SITES: usize = 32;
+
+// Loop heads
+pub const RK4_MAIN: usize = 0;
+pub const RK23_MAIN: usize = 1;
+pub const DOPRI5_MAIN: usize = 2;
+pub const DOP853_MAIN: usize = 3;
+pub const RADAU_MAIN: usize = 4;
+pub const RADAU_NEWTON: usize = 5;
+pub const BDF_MAIN: usize = 6;
+pub const BDF_NEWTON: usize = 7;
+pub const BRENT_LOOP: usize = 8;
+// Reach probes
+pub const RK23_REJECT: usize = 9;
+pub const DOPRI5_REJECT: usize = 10;
+pub const DOP853_REJECT: usize = 11;
+pub const RADAU_REJECT: usize = 12;
+pub const RADAU_LU_SINGULAR: usize = 13;
+pub const RADAU_NEWTON_RETRY: usize = 14;
+pub const BDF_LU_FAIL: usize = 15;
+pub const BDF_NEWTON_FAIL: usize = 16;
+pub const BDF_REJECT: usize = 17;
+pub const DOPRI5_STIFF_TEST: usize = 18;
+pub const DOP853_STIFF_TEST: usize = 19;
+pub const BDF_ORDER_CHANGE: usize = 20;
+pub const RADAU_REUSE_LU: usize = 21;
+pub const EVENT_ROOT_SEARCH: usize = 22;
+/// Reserved for the simulator's own seam crossings.
+pub const SEAM: usize = 31;
+
+/// Panic payload used when the tick budget is exceeded.
+#[derive(Debug, Clone, Copy)]
+pub struct Watchdog {
+    pub ticks: u64,
+    pub site: usize,
+}
+
+thread_local! {
+    static TICKS: Cell<u64> = const { Cell::new(0) };
+    static BUDGET: Cell<u64> = const { Cell::new(u64::MAX) };
+    static SITES: [Cell<u64>; N_SITES] = const { [const { Cell::new(0) }; N_SITES] };
+}
+
+/// Reset the clock and the per-site counters and set a new budget.
+pub fn reset(budget: u64) {
+    TICKS.with(|t| t.set(0));
+    BUDGET.with(|b| b.set(budget));
+    SITES.with(|s| {
+        for c in s.iter() {
+            c.set(0);
+        }
+    });
+}
+
+/// Advance the logical clock; unwinds with `Watchdog` once the budget is exceeded.
+#[inline]
+pub fn tick(site: usize) {
+    SITES.with(|s| s[site].set(s[site].get() + 1));
+    let t = TICKS.with(|t| {
+        let v = t.get() + 1;
+        t.set(v);
+        v
+    });
+    if t > BUDGET.with(|b| b.get()) {
+        // Disarm so that unwinding code cannot trip the watchdog again.
+        BUDGET.with(|b| b.set(u64::MAX));
+        std::panic::panic_any(Watchdog { ticks: t, site });
+    }
+}
+
+/// Current value of the logical clock.
+pub fn ticks() -> u64 {
+    TICKS.with(|t| t.get())
+}
+
+/// Snapshot of the per-site counters.
+pub fn site_counts() -> [u64; N_SITES] {
+    SITES.with(|s| {
+        let mut out = [0u64; N_SITES];
+        for (o, c) in out.iter_mut().zip(s.iter()) {
+            *o = c.get();
+        }
+        out
+    })
+}
